@@ -241,10 +241,16 @@ def r2(ctx):
 
     def it(gt, lt, z=None, o=None, eq=None):
         facts = {GT: gt, LT: lt}
+        # every spelling of the same three-way comparison (a chain may test ==, then >, and leave < to the else)
+        a_, b_ = f"len({SC})", f"len({TC})"
+        facts.update({f"{a_} == {b_}": not gt and not lt, f"{b_} == {a_}": not gt and not lt, f"{a_} >= {b_}": not lt, f"{a_} <= {b_}": not gt,
+                      f"{b_} < {a_}": gt, f"{b_} > {a_}": lt, f"{b_} <= {a_}": not lt, f"{b_} >= {a_}": not gt})
         if z is not None:
             facts.update({f"len({SC}) == 0": z, SC: not z})
         if o is not None:
             facts[f"len({SC}) == 1"] = o
+        if z is not None and o is not None:
+            facts.update({f"{a_} > 1": not z and not o, f"{a_} >= 2": not z and not o, f"{a_} < 2": z or o, f"{a_} <= 1": z or o})
         if eq is not None:
             facts[EQ] = eq
         return sym.iteration_effects(outs, lp, facts)
